@@ -21,7 +21,8 @@ COQ = dict(imports=["Gen.DialectTables", "Spec.C18"], in_ty="in_C18", out_ty="ou
            model="(fun i : in_C18 => let '(d, c, r) := i in offline_chunks d c r)")
 THEOREMS = ["C18_decider_sound", "C18_main", "C18_grammar", "C18_per_migration", "C18_single_block", "C18_autocommit",
             "C18_no_markers", "C18_content", "C18_tables_wf", "C18_table", "C18_ignores_connection_state", "C18_override_routes", "C18_cut_short", "C18_well_bracketed",
-            "C18_replay_well_framed", "C18_replay_cut", "C18_replay_equals_online"]
+            "C18_replay_well_framed", "C18_replay_cut", "C18_replay_equals_online", "C18_multi_db",
+            "C18_multi_db_independent"]
 CASE_TIMEOUT = 30
 
 _TR_ERROR = None
@@ -56,7 +57,10 @@ RULE = ("quick (exhaustive): {sqlite,postgresql,mysql,mariadb,mssql,oracle} x tr
         "EnvironmentContext keyword (alone, or contradicted by the configure() argument) on all dialects + mssql/oracle with the "
         "batch separator option set to '' or a custom string + offline runs CUT SHORT by an exception raised at every position of every "
         "migration of the linear history (between statements, inside the autocommit section, in the on_version_apply callback) on "
-        "all dialects x override x transaction_per_migration x {upgrade, downgrade} + --sql start:end ranges with start != base (no "
+        "all dialects x override x transaction_per_migration x {upgrade, downgrade} + on_version_apply hooks that emit 1 or 2 "
+        "statements through ctx.execute() (also in the cut-short runs) + two / three databases of different dialect classes configured "
+        "one after the other through ONE EnvironmentContext, each with its own output buffer, with and without explicit overrides on "
+        "each call (one case per script) + --sql start:end ranges with start != base (no "
         "CREATE TABLE) and end != head/base (no DROP TABLE) for upgrade, downgrade and stamp on all dialects + linear3 with 7 body layouts (autocommit first/last/only/empty/"
         "twice/multi-statement) ; thorough adds seeded random histories (2-7 revisions, merges, several roots), random bodies "
         "and partial ranges. non-trivial = effective transactional DDL and at least one step; distinct by encoded input")
@@ -116,6 +120,7 @@ def _envkw_lattice():
 
 def _fail_lattice():
     revs = _history("lin", "mid")
+    n = 0
     last = revs[-1]["id"]
     for cmd in ("upgrade", "downgrade"):
         direction = "up" if cmd == "upgrade" else "dn"
@@ -127,6 +132,8 @@ def _fail_lattice():
             for dn, tddl, tpm in itertools.product(DIALECTS, [None, True, False], [False, True]):
                 c = _case(dn, tddl, tpm, cmd, revs, spec, "lin/mid")
                 c["fail"] = fail
+                n += 1
+                c["hooks"] = n % 2
                 yield c
 
 
@@ -139,6 +146,37 @@ def _range_lattice():
                  ("downgrade", "%s:%s" % (last, first)), ("downgrade", "%s:%s" % (last, second)), ("stamp", "%s:%s" % (first, last))]
         for (cmd, spec), dn, tddl, tpm in itertools.product(specs, DIALECTS, [None, True, False], [False, True]):
             yield _case(dn, tddl, tpm, cmd, revs, spec, "%s/%s-range" % (shape, auto))
+
+
+def _hook_lattice():
+    for shape, auto in (("lin", "mid"), ("mg", "last")):
+        revs = _history(shape, auto)
+        last = revs[-1]["id"]
+        for dn, tddl, tpm, cmd, hooks in itertools.product(DIALECTS, [None, True, False], [False, True],
+                                                           ["upgrade", "downgrade", "stamp"], [1, 2]):
+            spec = {"upgrade": "heads", "downgrade": "%s:base" % last, "stamp": "heads"}[cmd]
+            c = _case(dn, tddl, tpm, cmd, revs, spec, "%s/%s" % (shape, auto))
+            c["hooks"] = hooks
+            yield c
+
+
+def _multi_lattice():
+    """two (three) databases of different dialect classes through one EnvironmentContext; one case per script"""
+    revs = _history("lin", "mid")
+    last = revs[-1]["id"]
+    seqs = [["postgresql", "mysql"], ["mysql", "postgresql"], ["sqlite", "mssql"], ["mssql", "oracle"], ["oracle", "postgresql"],
+            ["postgresql", "sqlite", "mssql"], ["mysql", "mssql", "sqlite"]]
+    for dns in seqs:
+        for ovs in itertools.product(["unset", True, False], repeat=len(dns)):
+            if len(dns) == 3 and ovs.count("unset") < 2:
+                continue
+            for tpm, cmd in itertools.product([False, True], ["upgrade", "downgrade"]):
+                spec = "heads" if cmd == "upgrade" else "%s:base" % last
+                for k in range(len(dns)):
+                    c = _case(dns[k], None, tpm, cmd, revs, spec, "lin/mid")
+                    c["multi"] = [[dn, ov, tpm] for dn, ov in zip(dns, ovs)]
+                    c["k"] = k
+                    yield c
 
 
 def _sep_lattice():
@@ -222,6 +260,8 @@ def generate(tier, seed):
     yield from _sep_lattice()
     yield from _fail_lattice()
     yield from _range_lattice()
+    yield from _hook_lattice()
+    yield from _multi_lattice()
     rnd = random.Random(seed * 7919 + 18)
     for _ in range(600 if tier == "quick" else 20000):
         yield _rand_case(rnd)
@@ -236,7 +276,14 @@ def search(tier, seed):
 ENV_PY = '''
 from alembic import context
 a = context.config.attributes
-if a["conn"] is None:
+if a.get("dbs"):
+    # several databases through ONE EnvironmentContext, each with its own output buffer (the multidb env.py, offline)
+    for idx, (dn, kw, buf) in enumerate(a["dbs"]):
+        a["cur"] = idx
+        context.configure(dialect_name=dn, literal_binds=True, output_buffer=buf, on_version_apply=a["cb"], **kw)
+        with context.begin_transaction():
+            context.run_migrations()
+elif a["conn"] is None:
     context.configure(dialect_name=a["dn"], literal_binds=True, transaction_per_migration=a["tpm"],
                       transactional_ddl=a["tddl"], on_version_apply=a["cb"], **a["extra"])
     with context.begin_transaction():
@@ -315,6 +362,7 @@ def _items(body):
 
 
 _PAYLOAD = re.compile(r"^(STMT|AUTO) (\w+) (up|dn) (\d+);?$")
+_HOOK = re.compile(r"^HOOK (\d+);?$")
 _VERSION = re.compile(r"^(INSERT INTO alembic_version |UPDATE alembic_version SET |DELETE FROM alembic_version WHERE )")
 _QUOTED = re.compile(r"'([^']*)'")
 
@@ -329,10 +377,23 @@ def run_case(h):
     logging.disable(logging.CRITICAL)
     warnings.simplefilter("ignore")
     names = [r["attrs"]["__dialect__"] for r in _TABLE]
+    multi = h.get("multi")
+    if multi:
+        # the case is the script of database h["k"]; its options are those of its own call plus the explicit overrides before it
+        h = dict(h)
+        kk = h["k"]
+        h["dialect"], h["tpm"] = multi[kk][0], multi[kk][2]
+        args = [None if m[1] == "unset" else m[1] for m in multi[:kk + 1]]
+        h["tddl_term"] = "(acc_of None %s)" % cf.lst(cf.opt(x, cf.boolean) for x in args)
+        acc = None
+        for x in args:
+            acc = x if x is not None else acc
+        h["tddl"] = acc
     didx = names.index(h["dialect"])
     revs = {r["id"]: r for r in h["revs"]}
     d = tempfile.mkdtemp(prefix="avc18")
-    steps_seen = []
+    steps_by_call = {}
+    nhooks = int(h.get("hooks", 0))
     try:
         os.makedirs(os.path.join(d, "versions"))
         open(os.path.join(d, "script.py.mako"), "w").write("")
@@ -348,16 +409,25 @@ def run_case(h):
                     r["id"], down, _fn_src("upgrade", r["id"], "up", r["up"]), _fn_src("downgrade", r["id"], "dn", r["dn"])))
         fail = h.get("fail")       # [revision, "up"/"dn", slot number | "cb"]
 
-        def cb(ctx, step, heads, run_args):
-            steps_seen.append({"stamp": step.is_stamp, "upgrade": step.is_upgrade, "up": list(step.up_revision_ids),
-                               "down": list(step.down_revision_ids), "empty_after": len(heads) == 0})
-            if fail and fail[2] == "cb" and not step.is_stamp and step.up_revision_id == fail[0]:
-                raise Boom("boom")
-
         buf = io.StringIO()
         cfg = Config()
         cfg.set_main_option("script_location", d)
         cfg.output_buffer = buf
+
+        def cb(ctx, step, heads, run_args):
+            steps_by_call.setdefault(cfg.attributes.get("cur", 0), []).append(
+                {"stamp": step.is_stamp, "upgrade": step.is_upgrade, "up": list(step.up_revision_ids),
+                 "down": list(step.down_revision_ids), "empty_after": len(heads) == 0, "hooks": nhooks})
+            for n in range(nhooks):              # an on_version_apply hook that emits SQL (an audit row per step)
+                ctx.execute("HOOK %d" % n)
+            if fail and fail[2] == "cb" and not step.is_stamp and step.up_revision_id == fail[0]:
+                raise Boom("boom")
+
+        bufs = None
+        if multi:
+            bufs = [io.StringIO() for _ in multi]
+            cfg.attributes["dbs"] = [(m[0], dict(([] if m[1] == "unset" else [("transactional_ddl", m[1])]) +
+                                                 [("transaction_per_migration", m[2])]), b) for m, b in zip(multi, bufs)]
         extra = {}
         if h.get("sep") is not None:
             extra[_sep_option(didx)] = h["sep"]
@@ -387,7 +457,8 @@ def run_case(h):
             err = "CommandError"
         except Boom:
             cut = True
-        text = buf.getvalue()
+        text = bufs[h["k"]].getvalue() if multi else buf.getvalue()
+        steps_seen = steps_by_call.get(h["k"] if multi else 0, [])
     finally:
         shutil.rmtree(d, ignore_errors=True)
 
@@ -402,7 +473,8 @@ def run_case(h):
         # the failing step never reached its callback: it is the step of the failing revision
         rv = revs[fail[0]]
         cut_body = _cut_body(rv[fail[1]], _slots(rv[fail[1]])[fail[2]])
-        steps_seen.append({"stamp": False, "upgrade": fail[1] == "up", "up": [fail[0]], "down": [], "empty_after": False})
+        steps_seen.append({"stamp": False, "upgrade": fail[1] == "up", "up": [fail[0]], "down": [], "empty_after": False,
+                           "hooks": 0})
     parts = text.split("\n\n")
     if parts and parts[-1] == "":
         parts = parts[:-1]
@@ -430,6 +502,10 @@ def run_case(h):
                 chunks.append("RStmt %d %d %s" % (k, p, cf.boolean(kind == "AUTO")))
                 evs.append("A" if kind == "AUTO" else "s")
                 continue
+        elif _HOOK.match(c) and 0 <= k < len(steps_seen) and int(_HOOK.match(c).group(1)) < steps_seen[k]["hooks"]:
+            chunks.append("RStmt %d %d false" % (k, 1000 + int(_HOOK.match(c).group(1))))
+            evs.append("h")
+            continue
         elif _VERSION.match(c) and 0 <= k < len(steps_seen):
             s = steps_seen[k]
             if set(_QUOTED.findall(c)) <= set(s["up"]) | set(s["down"]):
@@ -458,7 +534,8 @@ def run_case(h):
             body = revs[s["up"][0]]["up" if s["upgrade"] else "dn"]
         if cut_body is not None and j == len(steps_seen) - 1:
             body = cut_body
-        osteps.append("mkOstep %s %d%%nat %s" % (_items(body), nver[j], cf.boolean(s["empty_after"])))
+        osteps.append("mkOstep %s %d%%nat %s %s" % (_items(body), nver[j], cf.boolean(s["empty_after"]),
+                                                    cf.nlist(1000 + n for n in range(s["hooks"]))))
     cin = "(%s, %s, mkRun %s %s %s)" % (_dterm(h, didx), _ocfg(h), cf.boolean(init_empty), cf.lst(osteps), cf.boolean(cut))
     envkw = h.get("envkw", "unset")
     eff = h["tddl"] if h["tddl"] is not None else (envkw if envkw not in ("unset", None) else bool(_resolved_tddl(didx)))
@@ -470,9 +547,14 @@ def run_case(h):
         shape += "-envkw"
     if h.get("sep") is not None:
         shape += "-sep" + ("empty" if h["sep"] == "" else "custom")
+    if nhooks:
+        shape += "-hooks%d" % nhooks
+    if multi:
+        shape += "-multidb%d" % h["k"]
     if cut:
         shape += "-cut-" + ("callback" if fail[2] == "cb" else ("in-autocommit" if _slots(revs[fail[0]][fail[1]])[fail[2]][0] == "in" else "body"))
-    return dict(cin=cin, cout=cf.lst(chunks), out={"events": " ".join(evs), "steps": len(steps_seen)},
+    return dict(cin=cin, cout=cf.lst(chunks), chunks=chunks, sep=_sep_text(h, didx),
+                out={"events": " ".join(evs), "steps": len(steps_seen)},
                 nontrivial=bool(eff and steps_seen), shape=shape)
 
 
@@ -491,8 +573,40 @@ def _dterm(h, didx):
 
 def _ocfg(h):
     envkw = h.get("envkw", "unset")
-    return "mkOcfg %s %s %s %s" % (cf.opt(h["tddl"], cf.boolean), cf.boolean(h["tpm"]), cf.boolean(h.get("conn") == "in_txn"),
+    return "mkOcfg %s %s %s %s" % (h.get("tddl_term") or cf.opt(h["tddl"], cf.boolean), cf.boolean(h["tpm"]),
+                                   cf.boolean(h.get("conn") == "in_txn"),
                                    "None" if envkw == "unset" else cf.opt(envkw, cf.boolean))
+
+
+def _sep_text(h, idx):
+    if h.get("sep") is not None:
+        return h["sep"]
+    r = _TABLE[idx]
+    while r is not None and "batch_separator" not in r["attrs"]:
+        r = _TABLE[r["parent"]] if r["parent"] is not None else None
+    return r["attrs"]["batch_separator"] if r is not None else None
+
+
+def canary(human, rec):
+    """deliberately corrupted scripts the decider must reject: a marker dropped, a marker duplicated, a statement lost,
+    a statement duplicated"""
+    chunks = rec.get("chunks")
+    if not chunks:
+        return []
+    sep = rec.get("sep")
+    is_marker = lambda c: c.startswith("RRaw ") and (sep is None or sep == "" or c != "RRaw " + cf.string(sep))
+    marks = [i for i, c in enumerate(chunks) if is_marker(c)]
+    cont = [i for i, c in enumerate(chunks) if not c.startswith("RRaw ")]
+    out = []
+    if marks:
+        i, j = marks[0], marks[-1]
+        out.append(cf.lst(chunks[:i] + chunks[i + 1:]))                 # the first BEGIN dropped
+        out.append(cf.lst(chunks[:j + 1] + [chunks[j]] + chunks[j + 1:]))   # the last COMMIT (or open BEGIN) duplicated
+    if cont:
+        i = cont[len(cont) // 2]
+        out.append(cf.lst(chunks[:i] + chunks[i + 1:]))                 # a statement lost
+        out.append(cf.lst(chunks[:i + 1] + [chunks[i]] + chunks[i + 1:]))   # a statement duplicated
+    return out
 
 
 def _resolved_tddl(idx):
